@@ -295,6 +295,19 @@ func (vc *FuncVC) debugValue(name string, b *ssa.BasicBlock) *CVal {
 		return nil
 	}
 	var best *ssa.DebugRef
+	// an address-taken local variable: its address is the allocation, valid wherever
+	// the allocation dominates
+	for _, d := range vc.debugRefs[name] {
+		if a, ok := d.X.(*ssa.Alloc); ok && d.IsAddr && (a.Block() == b || a.Block().Dominates(b)) {
+			if _, done := vc.vals[a]; done {
+				elem := a.Type().Underlying().(*types.Pointer).Elem()
+				if isStruct(elem) {
+					return &CVal{T: vc.val(a).T, Typ: elem, SRef: true, Suffix: vc.localSuffix(a)}
+				}
+				return &CVal{T: vc.load(vc.cur, a), Typ: elem}
+			}
+		}
+	}
 	for _, d := range vc.debugRefs[name] {
 		db := d.Block()
 		if db == b || !db.Dominates(b) {
@@ -338,7 +351,7 @@ func (vc *FuncVC) debugValue(name string, b *ssa.BasicBlock) *CVal {
 	if best.IsAddr {
 		elem := best.X.Type().Underlying().(*types.Pointer).Elem()
 		if isStruct(elem) {
-			return &CVal{T: vc.val(best.X).T, Typ: elem, SRef: true}
+			return &CVal{T: vc.val(best.X).T, Typ: elem, SRef: true, Suffix: vc.localSuffix(best.X)}
 		}
 		return &CVal{T: vc.load(vc.cur, best.X), Typ: elem}
 	}
@@ -603,12 +616,16 @@ func (vc *FuncVC) evalField(env *Env, x *EField) *CVal {
 	base := vc.eval(env, x.X)
 	if ref, st, ok := vc.structRefOf(base); ok {
 		si := vc.structOf(st)
+		sfx := ""
+		if base.SRef {
+			sfx = base.Suffix
+		}
 		for i, f := range si.Fields {
 			if f.Name == x.Name {
 				if isStruct(f.Type) {
-					return &CVal{T: vc.fldRef(si, i, ref), Typ: f.Type, SRef: true}
+					return &CVal{T: vc.fldRef(si, i, ref), Typ: f.Type, SRef: true, Suffix: sfx}
 				}
-				return &CVal{T: Select(env.st.get(vc.fieldComp(si, i, "")), ref, f.Sort), Typ: f.Type}
+				return &CVal{T: Select(env.st.get(vc.fieldComp(si, i, sfx)), ref, f.Sort), Typ: f.Type}
 			}
 		}
 		// promoted fields through embedded structs
